@@ -132,7 +132,16 @@ impl<Db: Database> Storage<Db> {
     }
 
     fn get_impl<T: 'static>(&self, key: Key) -> Option<&T> {
-        let source_node = self.internal.get_source_node(key)?;
+        let Some(source_node) = self.internal.get_source_node(key) else {
+            // Reading an absent source is still a read: the calling memoized function
+            // must be re-executed once the source is set, and its result changed no
+            // earlier than now if the source was removed.
+            self.register_dependency_in_parent_memoized_fn(
+                NodeKind::AbsentSource(key),
+                self.internal.current_epoch,
+            );
+            return None;
+        };
 
         self.register_dependency_in_parent_memoized_fn(
             NodeKind::Source(key),
@@ -348,8 +357,11 @@ impl<Db: Database> InternalStorage<Db> {
                 }
             }
             Entry::Vacant(vacant_entry) => {
+                // A memoized function may have observed that this source was absent,
+                // so adding it is a change.
+                let next_epoch = self.current_epoch.increment();
                 let index = self.insert_source_node(SourceNode {
-                    time_updated: self.current_epoch,
+                    time_updated: next_epoch,
                     value: Box::new(source),
                 });
                 vacant_entry.insert(index);
